@@ -112,3 +112,13 @@ CASES += [
     {"name": "function stored with an explicit whole slice on both sides", "kind": "twin", "edits": [
         (_CFM11, "            self.data[iof,:] = fce.data\n", "            self.data[iof,:] = fce.data[:]\n", 1)]},
 ]
+
+_AC11 = "quantarhei/spectroscopy/abscalculator.py"
+CASES += [
+    {"name": "monomer spectrum of the first transition only (the repaired defect)", "kind": "mutant", "rule": "C11-N", "edits": [
+        (_AC11, "        for kk in range(1, self.system.nel):\n            # transition frequency\n", "        for kk in range(1, 2):\n            # transition frequency\n", 1)]},
+    {"name": "monomer spectrum takes the environment of the first transition for every line", "kind": "mutant", "rule": "C11-N", "edits": [
+        (_AC11, "                ct = self.system.get_egcf((0,kk))            \n", "                ct = self.system.get_egcf((0,1))            \n", 1)]},
+    {"name": "monomer transitions counted by another loop variable", "kind": "twin", "edits": [
+        (_AC11, "        for kk in range(1, self.system.nel):\n            # transition frequency\n", "        for kk in range(1, self.system.nel, 1):\n            # transition frequency\n", 1)]},
+]
